@@ -21,7 +21,7 @@ import (
 )
 
 func (dec *Decoder) readUnsafeBytes() []byte {
-	bytes := dec.UnsafeNext(dec.ReadInt())
+	bytes := dec.UnsafeNext(dec.ReadCount())
 	if dec.head == dec.tail && dec.reader != nil {
 		// Skip is about to refill the window that bytes points into.
 		bytes = append([]byte(nil), bytes...)
@@ -31,7 +31,7 @@ func (dec *Decoder) readUnsafeBytes() []byte {
 }
 
 func (dec *Decoder) readBytes() []byte {
-	bytes := dec.Next(dec.ReadInt())
+	bytes := dec.Next(dec.ReadCount())
 	dec.Skip()
 	return bytes
 }
@@ -46,7 +46,7 @@ func (dec *Decoder) ReadBytes() []byte {
 }
 
 func (dec *Decoder) readUint8Slice(et reflect.Type) []byte {
-	count := dec.ReadInt()
+	count := dec.ReadCount()
 	slice := make([]byte, count)
 	dec.AddReference(slice)
 	for i := 0; i < count; i++ {
